@@ -423,6 +423,9 @@ def registration_check(prop):
                 oname = 'expansion/%s::%s' % (name, label)
                 res['obligations'][oname] = 'structural'
                 if not ok:
+                    if '(None)' in text or ' None vs' in text:
+                        res['undecided'].append('fixture %s: %s could not be located in the expansion (lost anchor): %s' % (name, label, text))
+                        continue
                     res['violations'].append(dict(obligation=oname, message=text, site='macro-expansion of fixtures/src/lib.rs fn %s' % name, rendered=text))
         return res
     return run
